@@ -3,7 +3,23 @@ in_crate: inject `#[cfg(test)] #[path=…] mod __replay_<stem>;` into a scratch 
 tests   : copy replay/native/<name>.rs into the scratch copy's tests/ and run `cargo test --test <name>`."""
 import os
 import re
+import signal
 import subprocess
+
+
+def _run(cmd, cwd, env, timeout):
+    """run with a time bound; on timeout kill the whole process group (cargo AND the test binary it spawned)"""
+    proc = subprocess.Popen(cmd, cwd=cwd, env=env, stdout=subprocess.PIPE, stderr=subprocess.STDOUT, text=True, start_new_session=True)
+    try:
+        out, _ = proc.communicate(timeout=timeout)
+        return proc.returncode, out
+    except subprocess.TimeoutExpired:
+        try:
+            os.killpg(proc.pid, signal.SIGKILL)
+        except ProcessLookupError:
+            pass
+        out, _ = proc.communicate()
+        return -9, (out or "") + "\n[verif] native run timed out after %ds\n" % timeout
 
 VERIF = os.path.abspath(os.path.join(os.path.dirname(os.path.abspath(__file__)), ".."))
 TARGET = os.environ.get("VERIF_NATIVE_TARGET", os.path.join(VERIF, ".cache", "native-target"))
@@ -16,7 +32,7 @@ def _copy(repo, scratch):
     return crate
 
 
-def run_in_crate(repo, scratch, stem, test_filter="", timeout=900):
+def run_in_crate(repo, scratch, stem, test_filter="", timeout=600):
     crate = _copy(repo, scratch)
     import glob
     # inject every in-crate replay module (they may use each other's helpers)
@@ -28,18 +44,18 @@ def run_in_crate(repo, scratch, stem, test_filter="", timeout=900):
             fh.write('\n#[cfg(test)]\n#[path = "%s"]\npub(crate) mod __replay_%s;\n' % (src, st))
     env = dict(os.environ, CARGO_TARGET_DIR=TARGET, CARGO_NET_OFFLINE="true", RUST_BACKTRACE="0")
     cmd = ["cargo", "test", "--offline", "--lib", "__replay_%s::%s" % (stem, test_filter), "--", "--test-threads", "1", "--nocapture"]
-    p = subprocess.run(cmd, cwd=crate, env=env, capture_output=True, text=True, timeout=timeout)
-    return p.returncode, p.stdout + p.stderr, " ".join(cmd)
+    rc, out = _run(cmd, crate, env, timeout)
+    return rc, out, " ".join(cmd)
 
 
-def run_test_file(repo, scratch, name, timeout=900):
+def run_test_file(repo, scratch, name, timeout=600):
     crate = _copy(repo, scratch)
     src = os.path.join(VERIF, "replay", "native", name + ".rs")
     subprocess.run(["cp", src, os.path.join(crate, "tests", name + ".rs")], check=True)
     env = dict(os.environ, CARGO_TARGET_DIR=TARGET, CARGO_NET_OFFLINE="true", RUST_BACKTRACE="0")
     cmd = ["cargo", "test", "--offline", "--test", name]
-    p = subprocess.run(cmd, cwd=crate, env=env, capture_output=True, text=True, timeout=timeout)
-    return p.returncode, p.stdout + p.stderr, " ".join(cmd)
+    rc, out = _run(cmd, crate, env, timeout)
+    return rc, out, " ".join(cmd)
 
 
 if __name__ == "__main__":
